@@ -36,19 +36,22 @@ Qed.
 Section Bound.
   Variables (cfg : config) (srv : server) (snap : snapshot) (cs : bool) (lim : N).
 
-  (* the roles on the current delegation path: pairwise distinct and all listed in the snapshot *)
+  (* the roles on the current delegation path: pairwise distinct, and each a top-level role name (where the
+     path starts) or listed in the snapshot *)
   Definition anc_ok (anc : list bytes) : Prop :=
-    NoDup anc /\ forall a, In a anc -> lookup (json_of a) (sn_meta snap) <> None.
+    NoDup anc /\ forall a, In a anc -> lookup (json_of a) (sn_meta snap) <> None \/ In a (top_ancestors fixed).
 
-  Lemma anc_ok_length anc : anc_ok anc -> (length anc <= length (sn_meta snap))%nat.
+  Lemma anc_ok_length anc : anc_ok anc -> (length anc <= length (sn_meta snap) + 4)%nat.
   Proof.
     intros (ND & Hall).
     assert (ND' : NoDup (map json_of anc)).
     { clear Hall. induction ND as [|a l Hn ND IH]; cbn [map]; constructor; [|exact IH].
       intro Hin. apply in_map_iff in Hin as (b & E & Hb). apply json_of_inj in E. subst b. contradiction. }
-    assert (Hincl : incl (map json_of anc) (map fst (sn_meta snap))).
-    { intros k Hk. apply in_map_iff in Hk as (a & <- & Ha). apply lookup_some_in_keys, Hall, Ha. }
-    pose proof (NoDup_incl_length ND' Hincl) as Hlen. rewrite !map_length in Hlen. exact Hlen.
+    assert (Hincl : incl (map json_of anc) (map fst (sn_meta snap) ++ map json_of (top_ancestors fixed))).
+    { intros k Hk. apply in_map_iff in Hk as (a & <- & Ha). apply in_or_app.
+      destruct (Hall a Ha) as [Hl|Ht]; [left; apply lookup_some_in_keys, Hl|right; apply in_map, Ht]. }
+    pose proof (NoDup_incl_length ND' Hincl) as Hlen. rewrite app_length, !map_length in Hlen.
+    cbn [top_ancestors fixed fx_reserved_names length] in Hlen. exact Hlen.
   Qed.
 
   Lemma anc_ok_snoc anc name : anc_ok anc -> ~ In name anc -> lookup (json_of name) (sn_meta snap) <> None ->
@@ -56,7 +59,7 @@ Section Bound.
   Proof.
     intros (ND & Hall) Hn Hl. split.
     - apply NoDup_snoc; assumption.
-    - intros a Ha. apply in_app_or in Ha as [Ha|[<-|[]]]; [apply Hall, Ha|exact Hl].
+    - intros a Ha. apply in_app_or in Ha as [Ha|[<-|[]]]; [apply Hall, Ha|left; exact Hl].
   Qed.
 
   (* ---- what fetch_level lets through ---- *)
@@ -122,9 +125,9 @@ Section Bound.
   Qed.
 
   (* with [fuel] levels left and [length anc] roles on the path, fuel is not exhausted as long as
-     fuel + length anc exceeds the number of snapshot entries *)
+     fuel + length anc exceeds the number of snapshot entries plus the four top-level names *)
   Theorem load_delegs_term : forall fuel dk rs anc w r w',
-    anc_ok anc -> (length (sn_meta snap) < fuel + length anc)%nat ->
+    anc_ok anc -> (length (sn_meta snap) + 4 < fuel + length anc)%nat ->
     load_delegs fixed cfg srv snap cs lim fuel dk rs anc w = (r, w') -> no_oof r.
   Proof.
     induction fuel as [|f IH]; intros dk rs anc w r w' Hanc Hlen H.
@@ -133,7 +136,7 @@ Section Bound.
     destruct (fetch_level fixed cfg srv snap cs lim dk rs rs anc [] w) as [[fetched|c a] w1] eqn:E;
       destruct (fetch_level_passed _ _ _ _ _ _ _ _ E) as (N & Hf).
     2:{ inv H. exact N. }
-    eapply (second_loop_term (load_delegs fixed cfg srv snap cs lim f) (length (sn_meta snap) + 1 - f));
+    eapply (second_loop_term (load_delegs fixed cfg srv snap cs lim f) (length (sn_meta snap) + 5 - f));
       [|exact Hanc|lia| |exact H].
     - intros dk' rs' anc' w0 r0 w0' Hanc' Hb H0. eapply IH; [exact Hanc'|lia|exact H0].
     - intros name t Hin. destruct (Hf fetched eq_refl name t Hin) as [[]|Hp]. exact Hp.
@@ -281,7 +284,7 @@ Qed.
 Theorem cycle_terminates c s res w' :
   c_max_root_updates (cy_cfg c) < N.of_nat (c_fuel (cy_cfg c)) ->
   (forall name limit hash file sn, fetch (cy_srv c) name limit hash = FOk file -> f_body file = CSnap sn ->
-                                   (length (sn_meta sn) <= c_fuel (cy_cfg c))%nat) ->
+                                   (length (sn_meta sn) < c_fuel (cy_cfg c))%nat) ->
   run_cycle fixed c s = (res, w') -> no_oof res.
 Proof.
   intros Hroot Hsnap H. unfold run_cycle, cycle in H.
@@ -330,7 +333,7 @@ Proof.
       2:{ inv E3. exact Ec. }
       match type of E3 with context [ds_op ?a ?b ?c ?d] => destruct (ds_op a b c d) as [[u4|c4 a4] w5] eqn:E4 end;
         apply ds_op_no_oof in E4; inv E3. exact E4. }
-  assert (Hsn : (length (sn_meta sn) <= c_fuel (cy_cfg c))%nat).
+  assert (Hsn : (length (sn_meta sn) < c_fuel (cy_cfg c))%nat).
   { apply load_snapshot_atomic in E3 as (_ & _ & _ & _ & (_ & ((m & file & _ & Hf & Hb & _) & _))); [|reflexivity].
     eapply Hsnap; eassumption. }
   destruct (load_targets fixed (cy_cfg c) r sn (cy_srv c) (cy_now c) w3) as [[t|c0 a0] w4] eqn:E4; inv H; [exact I|].
@@ -352,9 +355,9 @@ Proof.
       destruct (load_delegs a b c d e f g h i j k) as [[rs|c7 a7] w7] eqn:E7 end.
     + destruct (validate (tg_set_roles t0 rs)); inv E4. cbn. discriminate.
     + inv E4. refine (load_delegs_term _ _ _ _ _ _ _ _ _ _ _ _ _ _ E7).
-      * split; [constructor; [intros []|constructor]|]. intros a [<-|[]].
-        change (json_of name_targets_role) with name_targets. rewrite Hm. discriminate.
-      * cbn [length]. lia.
+      * split; [|intros a Ha; right; exact Ha].
+        cbn [top_ancestors fixed fx_reserved_names]. repeat constructor; cbn [In]; intuition discriminate.
+      * cbn [top_ancestors fixed fx_reserved_names length]. lia.
   - destruct (validate t0); inv E4. cbn. discriminate.
 Qed.
 
